@@ -159,7 +159,19 @@ def lexical_guards(fi: FunctionInfo, node: ast.AST):
     """(test, 'T' | 'F') of the if / while statements that lexically enclose `node` inside fi (innermost first)."""
     out = []
     prev = node
+
+    def exits(body):
+        return bool(body) and isinstance(body[-1], (ast.Continue, ast.Return, ast.Break, ast.Raise))
     for anc in ancestors(fi, node):
+        # an earlier sibling `if C: ...; continue/return/break/raise` (no else) in the same block: C is false from there on
+        for fld in ("body", "orelse", "finalbody"):
+            blk = getattr(anc, fld, None)
+            if isinstance(blk, list) and any(prev is x for x in blk):
+                for st in blk:
+                    if st is prev:
+                        break
+                    if isinstance(st, ast.If) and not st.orelse and exits(st.body):
+                        out.append((st.test, "F"))
         if isinstance(anc, (ast.FunctionDef, ast.AsyncFunctionDef, ast.Lambda)):
             break
         if isinstance(anc, ast.If):
